@@ -142,7 +142,7 @@ def _ref_overlap_doc(draw):
 
 
 def phases(tier):
-    n = 8000 if tier == "quick" else 500000
+    n = 8000 if tier == "quick" else 150000
     return [
         Phase("boundary-years", "enum", items=lambda: _enum_items(tier), exhaustive=True),
         Phase("docs", "gen", strategy=lambda: legal.document(hostile=True).map(lambda t: {"text": t, "tokenizer": "ac"}), n=n),
